@@ -323,6 +323,9 @@ pub fn run_schedule(p: &Program, prefix: &[usize]) -> Execution {
     for &t in &unfinished {
       let ok = match ths[t].at {
         Some((_, Kind::Access)) | Some((_, Kind::Held)) => true,
+        // in critical-section mode the blocking of get_or_init is not assumed: the thread is let
+        // run, and if the real cell makes it wait the execution is discarded as infeasible
+        Some((_, Kind::OnceEnter { .. })) if p.critical_sections => true,
         Some((_, Kind::OnceEnter { obj })) => match once_in_progress.get(&obj) {
           Some(owner) => *owner == t,
           None => true,
@@ -378,7 +381,8 @@ pub fn run_schedule(p: &Program, prefix: &[usize]) -> Execution {
     let _ = ths[t].to.send(Cmd::Go);
     // run until its next point
     loop {
-      let holder_parked = p.critical_sections && (0..ths.len()).any(|o| o != t && !ths[o].finished && matches!(ths[o].at, Some((_, Kind::Held))));
+      let holder_parked = p.critical_sections
+        && ((0..ths.len()).any(|o| o != t && !ths[o].finished && matches!(ths[o].at, Some((_, Kind::Held)))) || once_in_progress.values().any(|o| *o != t));
       match ths[t].from.recv_timeout(if holder_parked { CS_BLOCK_TIMEOUT } else { BLOCK_TIMEOUT }) {
         Ok(Report::AtPoint { site, kind }) => {
           ths[t].at = Some((site, kind));
@@ -775,6 +779,21 @@ pub fn programs(tier: &str) -> Vec<Program> {
     ("P7c [critical sections] replace clone->hash||source,source", vec![vec![Op::CloneCall(0, Hash)], vec![Op::Call(0, Source), Op::Call(0, Source)]]),
   ] {
     let mut q = mk(name, vec![r()], threads);
+    q.critical_sections = true;
+    v.push(q);
+  }
+  // ... and the lazily initialised cells (cached hash shared by clones, lazily decoded buffer): the
+  // scheduler does not assume that get_or_init makes a second caller wait
+  for (name, objs, threads) in [
+    ("P7d [critical sections] cached(replace) hash||hash", vec![Obj::Build(Term::cached(unsorted_replace()))], vec![vec![Op::Call(0, Hash)], vec![Op::Call(0, Hash)]]),
+    ("P7e [critical sections] cached hash||clone hash", vec![c(), Obj::CloneOf(0)], vec![vec![Op::Call(0, Hash)], vec![Op::Call(1, Hash)]]),
+    (
+      "P7f [critical sections] rawbuffer source||source",
+      vec![Obj::Build(Term::RawBufS(vec![b'a', 0xff, b'\n']))],
+      vec![vec![Op::Call(0, Source)], vec![Op::Call(0, Source)]],
+    ),
+  ] {
+    let mut q = mk(name, objs, threads);
     q.critical_sections = true;
     v.push(q);
   }
